@@ -155,14 +155,10 @@ theorem itemset_value (q : SelIn) : (itemsetOf q).value = Spec.valueRef q := by
         intro h; apply hx; rw [h]; decide
       simp [hp, hx, hg]
 
-/-- The label ref is the decision table's *when the select carries the list's itext flag*.
-    Full statement wanted: `(itemsetOf q).label = Spec.labelRef q listItext` with `listItext` = "the list
-    named in the type cell requires itext".  It fails on the pinned code for randomized selects without
-    choice_filter (known finding F39-randomize-itext-label): `add_choices_info_to_question` attaches no
-    `choices` there, so `q.choicesItext = false` although the list requires itext. -/
-theorem itemset_label_partial (q : SelIn) (listItext : Bool) (h : q.choicesItext = listItext) :
-    (itemsetOf q).label = Spec.labelRef q listItext := by
-  subst h
+/-- … and so is the label ref: `jr:itext(itextId)` exactly when the list named in the type cell keeps its
+    labels in itext (`q.choicesItext` is that flag: since commit 2ee52f9 the list is looked up on the survey,
+    so randomized selects see it too — the former finding F39 and its guard are gone). -/
+theorem itemset_label (q : SelIn) : (itemsetOf q).label = Spec.labelRef q q.choicesItext := by
   unfold itemsetOf Spec.labelRef Spec.sourceOf
   by_cases hp : hasBraceRef q.itemset
   · simp [hp]
@@ -172,11 +168,9 @@ theorem itemset_label_partial (q : SelIn) (listItext : Bool) (h : q.choicesItext
         intro h; apply hx; rw [h]; decide
       by_cases hc : q.choicesItext <;> simp [hp, hx, hg, hc]
 
-/-- the witness of the gap: the model (as the code) answers `label` where the list requires itext -/
+/-- a randomized select on an itext list -/
 example : (itemsetOf { itemset := c!"sizes", filter := [], params := [(c!"randomize", c!"true")], seedSub := [],
-                       prevSub := [], choicesItext := false }).label = c!"label" ∧
-          Spec.labelRef { itemset := c!"sizes", filter := [], params := [(c!"randomize", c!"true")], seedSub := [],
-                          prevSub := [], choicesItext := false } true = c!"jr:itext(itextId)" := by decide +kernel
+                       prevSub := [], choicesItext := true }).label = c!"jr:itext(itextId)" := by decide +kernel
 
 example : itemsetOf { itemset := c!"colors", filter := c!"x= /data/c1 ", params := [(c!"randomize", c!"true"), (c!"seed", c!"4")],
                       seedSub := [], prevSub := [], choicesItext := false }
@@ -238,5 +232,29 @@ theorem csv_cells (header : List Str) (rows : List Cells) :
 example : parseCsv (itemsetsCsv [c!"list_name", c!"name", c!"a"]
     [[(c!"list_name", c!"e"), (c!"a", c!"x\"y,\nz")], [(c!"name", c!"n"), (c!"list_name", c!"e")]])
     = [[c!"list_name", c!"name", c!"a"], [c!"e", [], c!"x\"y,\nz"], [c!"e", c!"n", []]] := by decide +kernel
+
+/-! ## cleaning of the choices / external_choices cells -/
+
+theorem smart_quotes_table :
+    Pyxv.Gen.smartQuotes = [("‘", "'"), ("’", "'"), ("“", "\""), ("”", "\"")] := by decide
+
+/-- Cleaning keeps every column where it is and touches no character other than the four smart quotes:
+    whitespace inside a cell (runs of spaces, tabs, newlines, leading / trailing blanks) is preserved. -/
+theorem clean_preserves (s : Str) (h : ∀ c ∈ s, smartTable.find? (fun p => p.1 = c) = none) : cleanCell s = s := by
+  induction s with
+  | nil => rfl
+  | cons c cs ih =>
+    have hc := h c (by simp)
+    have := ih (fun d hd => h d (by simp [hd]))
+    simp [cleanCell, cleanChar, hc] at this ⊢
+    exact this
+
+theorem clean_keys (r : Cells) : (cleanRow r).map (·.1) = r.map (·.1) := by
+  simp [cleanRow]
+
+theorem clean_length (s : Str) : (cleanCell s).length = s.length := by simp [cleanCell]
+
+example : cleanCell c!"a  b\t\n c " = c!"a  b\t\n c " := by decide +kernel
+example : cleanCell ['“', 'x', '”'] = c!"\"x\"" := by decide +kernel
 
 end Pyxv.C09
